@@ -374,7 +374,23 @@ pub fn replay_file(mon: &dyn Monitor, cfg: &Config, path: &str) -> i32 {
 pub fn run(mon: Arc<dyn Monitor>, cfg: &Config) -> i32 {
     let start = Instant::now();
     let prop = mon.id();
-    let streams = mon.streams(cfg.tier, cfg.budget);
+    let mut streams = mon.streams(cfg.tier, cfg.budget);
+    // sanitizer legs (Miri / ASan) run the same workloads with every stream capped
+    let stream_cap: Option<u64> = std::env::var("XVM_STREAM_CAP").ok().and_then(|s| s.parse().ok());
+    let skip_solo = std::env::var("XVM_SKIP_SOLO").is_ok();
+    let no_floors = std::env::var("XVM_NO_FLOORS").is_ok();
+    if let Some(cap) = stream_cap {
+        for s in streams.iter_mut() {
+            s.cases = s.cases.min(cap);
+        }
+    }
+    if skip_solo {
+        for s in streams.iter_mut() {
+            if s.solo {
+                s.cases = 0;
+            }
+        }
+    }
     let known = match load_known(&cfg.root, prop) {
         Ok(k) => k,
         Err(e) => {
@@ -636,7 +652,7 @@ pub fn run(mon: Arc<dyn Monitor>, cfg: &Config) -> i32 {
 
     // floors
     let mut unmet: Vec<String> = Vec::new();
-    for (k, n) in mon.floors(cfg.tier) {
+    for (k, n) in if no_floors { Vec::new() } else { mon.floors(cfg.tier) } {
         let have = merged.counters.get(k).copied().unwrap_or(0);
         if have < n {
             unmet.push(format!("{}: {} < {}", k, have, n));
